@@ -30,9 +30,20 @@ build() {
     fi
 }
 
+build_devlike() {
+    # The same optimised build with debug assertions on (C01 runs half of its
+    # cases under it).
+    if ! cargo build --profile devlike --offline >"$VERIF/target/build_devlike.log" 2>&1; then
+        echo "harness error: devlike build failed (see $VERIF/target/build_devlike.log)" >&2
+        grep -E "^error" -A8 "$VERIF/target/build_devlike.log" | head -60 >&2
+        exit 2
+    fi
+}
+
 case "${1:-}" in
     build)
         build
+        build_devlike
         ;;
     replay)
         build
@@ -47,10 +58,7 @@ case "${1:-}" in
         build
         # C01 also runs under the same optimised build with debug assertions
         # on (what a user's debug build of the library has).
-        if ! cargo build --profile devlike --offline >"$VERIF/target/build_devlike.log" 2>&1; then
-            echo "harness error: devlike build failed (see $VERIF/target/build_devlike.log)" >&2
-            exit 2
-        fi
+        build_devlike
         SLX_SECOND_PROFILE_BIN="$VERIF/target/devlike/slx-sim" exec "$VERIF/target/release/slx-sim" check C01 --tier "${2:-${VERIF_TIER:-quick}}"
         ;;
     C[0-9][0-9])
